@@ -46,6 +46,8 @@ class ApproximateNMFPredictor(BaseEstimator, RegressorMixin, MultiOutputMixin):
         BaseEstimator.__init__(self)
         RegressorMixin.__init__(self)
         MultiOutputMixin.__init__(self)
+        for k, v in NMF().get_params().items():
+            setattr(self, k, v)
         for k, v in kwargs.items():
             setattr(self, k, v)
         self.force_positive = force_positive
